@@ -24,7 +24,8 @@ Kinds == 0..6
 \* modes: 0 "r", 1 "w", 2 "a", 3 "q", 4 ""
 Modes == 0..4
 
-S0 == [open |-> FALSE, mode |-> 0, fk |-> 0, pos |-> "b", hdr |-> FALSE, live0 |-> 0]
+\* made: an earlier open of this session in mode "w" / "a" may have created the file of kind 1 ("missing")
+S0 == [open |-> FALSE, mode |-> 0, fk |-> 0, pos |-> "b", hdr |-> FALSE, made |-> FALSE, live0 |-> 0]
 
 IdleCalls == { <<"xopen", k, m>> : k \in Kinds, m \in Modes } \cup
              { <<"xtag", v>> : v \in {0, 1, 2, 32, 39, 64, 127, 255} } \cup
@@ -45,7 +46,7 @@ Expect(S, c) ==
     IF c[1] = "xopen" THEN
         (IF c[3] \in {3, 4} THEN "err"                       \* not a mode
          ELSE IF c[3] = 1 THEN "ok"                          \* "w" creates the file
-         ELSE IF c[2] = 1 /\ c[3] = 0 THEN "err"             \* nothing to read
+         ELSE IF c[2] = 1 /\ c[3] = 0 /\ ~S.made THEN "err" \* nothing to read
          ELSE "any")
     ELSE IF c[1] = "xclose" THEN "ok"
     ELSE IF c[1] \in {"xtag", "xdt", "xver", "xbk", "xtell"} THEN "ok"
@@ -53,8 +54,9 @@ Expect(S, c) ==
 
 \* the assumed effect of a successful call (navigation through the graph only; nothing is judged by it)
 Eff(S, c) ==
-    CASE c[1] = "xopen"  -> [S EXCEPT !.open = TRUE, !.mode = c[3], !.fk = c[2], !.pos = "b", !.hdr = FALSE]
-      [] c[1] = "xclose" -> [S0 EXCEPT !.live0 = S.live0]
+    CASE c[1] = "xopen"  -> [S EXCEPT !.open = TRUE, !.mode = c[3], !.fk = c[2], !.pos = "b", !.hdr = FALSE,
+                                      !.made = @ \/ (c[2] = 1 /\ c[3] \in {1, 2})]
+      [] c[1] = "xclose" -> [S0 EXCEPT !.live0 = S.live0, !.made = S.made]
       [] c[1] = "xrdhdr" -> [S EXCEPT !.hdr = TRUE]
       [] c[1] \in {"xrd", "xrdpay", "xnext", "xinext", "xscan"} -> [S EXCEPT !.pos = "m", !.hdr = FALSE]
       [] c[1] \in {"xprev", "xiprev"} -> [S EXCEPT !.pos = "m", !.hdr = FALSE]
